@@ -388,6 +388,46 @@ def rule_c(R, ctx):
             "yrs::transaction::ReadTxn::encode_state_as_update_v2")
 
 
+def rule_i(R, ctx, rid="C02.i"):
+    Y = ctx.yrs
+    R.rule(rid, "R-PROV+R-GUARD WriteTxn::prune_pending (hands the stash to the caller and clears it) forwards BOTH stashes, each "
+                "under its own presence test alone: pending.update is pushed where `pending.take()` is Some, an update carrying "
+                "pending_ds where `pending_ds.take()` is Some, and the answer is Update::merge_updates of that list")
+    m = Y.fn("yrs::transaction::WriteTxn::prune_pending")
+    mv = FnView(m)
+    pbs = m.calls_to("re:^std::vec::Vec::push$", "re:^std::collections::VecDeque::push_back$")
+    R.floor(rid, "pushes into the merge list of prune_pending", len(pbs), 2)
+    got_p = got_ds = False
+    for cs in pbs:
+        a = mv.arg(cs, 1)
+        if term_has_field(a, "Store.pending") and not term_has_field(a, "Store.pending_ds"):
+            got_p = True
+    for i, j, st in m.stmts():
+        dst = st["dst"]
+        if isinstance(dst, dict) and F.place_has_field(dst, "Update.delete_set", last_only=True):
+            if term_has_field(mv.terms.rvalue(st["rv"], 10), "Store.pending_ds"):
+                u = dst["l"]
+                for cs in pbs:
+                    if any(tt[0] == "local" and tt[1] == u for tt in walk(mv.arg(cs, 1))) or any(_mentions_local(m, cs.args[1], u)):
+                        got_ds = True
+    R.ob(rid, m, "push:pending", got_p, "pending.update is pushed into the merge list: %s" % got_p)
+    R.ob(rid, m, "push:pending_ds", got_ds, "an update carrying pending_ds is pushed into the merge list: %s" % got_ds)
+    for cs, site in ordinal_sites(pbs):
+        tests = []
+        for l in mv.guards(cs.bb):
+            if term_has_field(l.term, "Store.pending_ds"):
+                tests.append(("pending_ds", l.polarity))
+            elif term_has_field(l.term, "Store.pending"):
+                tests.append(("pending", l.polarity))
+            else:
+                tests.append((l.desc[:50], l.polarity))
+        ok_i = len(tests) == 1 and tests[0][1] == "Some" and tests[0][0] in ("pending", "pending_ds")
+        R.ob(rid, m, "alone:" + site, ok_i, "forwarded exactly where %s is Some" % tests[0][0] if ok_i else
+             "a stash is forwarded under %s — not under its own presence test alone" % (tests,), cs.loc())
+    ret = mv.terms.local(0, 14)
+    R.ob(rid, m, "return", term_has_call(ret, "yrs::update::Update::merge_updates"), "answers %s" % sshow(ret, 5))
+
+
 def _mentions_local(fn, op, local, depth=8):
     """does the backward slice of operand `op` mention MIR local `local` (through refs/calls)?"""
     seen = set()
@@ -632,6 +672,7 @@ def check(ctx, R):
     R.run("C02.f", rule_f, ctx)
     R.run("C02.g", rule_g, ctx)
     R.run("C02.h", rule_h, ctx)
+    R.run("C02.i", rule_i, ctx)
     from . import preds
     R.run("C02.p", lambda R, c: preds.rule(R, c, "C02.p", ["is_missing"]), ctx)
     return {}
